@@ -47,7 +47,7 @@ def make_plan(seed: int, tier: str) -> dict:
     rng = SimRng(seed)
     st = rng.stream("plan")
     call = st.choice(CALLS)
-    kind = st.choice(["logistic_diag", "logistic_scalar"]) if call == "simulate" else st.choice(KINDS)
+    kind = st.choice(["logistic_diag", "logistic_scalar"]) if call == "simulate" else st.choice(KINDS + (["mixture", "joint_ev2"] if call == "fit" else []))
     info = workload.kind_info(kind)
     nf = 1 if info["uni"] else 3
     plan = {"seed": seed, "tier": tier, "engine": "procsim_c11", "call": call, "kind": kind, "nf": nf, "gseed": st.u64() & 0xFFFFFFFF,
@@ -55,6 +55,8 @@ def make_plan(seed: int, tier: str) -> dict:
     if call in ("fit", "mean_posterior", "mode_posterior") and st.bernoulli(0.35):
         plan["annealing"] = {"do_annealing": True, "initial_temperature": st.choice([2, 5, 10]), "n_plateau": st.randint(2, 3), "n_iter_frac": st.choice([0.5, 0.9])}
         plan["n_iter"] = max(plan["n_iter"], 6)
+    if call == "fit" and workload.kind_info(kind)["family"] != "linear" and st.bernoulli(0.25):
+        plan["init_random"] = True   # documented model option: the initial parameters are drawn (logistic family)
     for _ in range(st.randint(0, 3)):
         k = st.choice(["burn_rng", "burn_rng", "seed_other", "earlier_fit", "earlier_personalize", "open_figures", "default_dtype_roundtrip"])
         op = {"op": k}
@@ -141,6 +143,8 @@ def run_plan(plan: dict) -> dict:
         C["probe.clock_jump"] += 1
     if plan.get("annealing"):
         C["probe.annealing_on"] += 1
+    if plan.get("init_random"):
+        C["probe.random_initialization"] += 1
     if ref["errors"]:
         # the measured call itself fails without any history or logging: not attributable to C11
         out["discarded"] = f"reference_raised:{ref['errors'][0][1]}"
@@ -167,6 +171,8 @@ def run_plan(plan: dict) -> dict:
                 cause.append("history")
             if label == "with_history_and_logging" and plan["logs"]:
                 cause.append("logging")
+            if plan.get("init_random"):
+                cause.append("random_initialization")
             violation(out, "reproducible", f"result_differs_from_history_free_run:{call}:{label}:{'+'.join(cause) or 'nothing'}:{ns_kind}",
                       f"{where}: {label}: {d} vs reference {dref}")
     if len(set(digs.values())) > 1 and all(d == dref or True for d in digs.values()) and "with_history_and_logging" in digs and "again_without_logging" in digs \
